@@ -1,19 +1,77 @@
 //! C02 — events always form a well-nested YAML event sentence.
 use super::sweep::*;
-use crate::engine::Budget;
+use crate::engine::{par_blocks, Budget};
 use crate::report::{Acc, Report, Tier};
-use serde_json::Value;
+use serde_json::{json, Value};
+
+/// Streams with very many anchors (the id counter, its table and its width): (shape, count) -> text
+pub const ANCHOR_SHAPES: [&str; 4] = ["distinct names in one block sequence + aliases to the first and the last", "one name redefined n times, each followed by an alias", "one anchored root per document", "distinct names in one flow sequence + aliases"];
+pub const ANCHOR_COUNTS: [usize; 12] = [1, 2, 127, 128, 255, 256, 257, 32767, 32768, 65535, 65536, 65537];
+pub fn anchors_text(shape: usize, n: usize) -> String {
+    let mut s = String::new();
+    match shape {
+        0 => {
+            for k in 0..n {
+                s.push_str(&format!("- &a{k} x\n"));
+            }
+            s.push_str(&format!("- *a{}\n- *a0\n", n - 1));
+        }
+        1 => {
+            for _ in 0..n {
+                s.push_str("- &a x\n- *a\n");
+            }
+        }
+        2 => {
+            for _ in 0..n {
+                s.push_str("--- &a x\n");
+            }
+            s.push_str("--- [&b y, *b]\n");
+        }
+        _ => {
+            s.push('[');
+            for k in 0..n {
+                s.push_str(&format!("&a{k} x, "));
+            }
+            s.push_str(&format!("*a{}, *a0]\n", n - 1));
+        }
+    }
+    s
+}
 
 pub fn check(tier: Tier) -> i32 {
     let mut rep = Report::new("C02", tier, "exploration");
-    rep.rule = "every string of the listed scopes (all strings up to length N over each alphabet, all chunk sequences up to K, the yaml-test-suite inputs and, in the thorough tier, their one-edit neighbourhood) is parsed with {StrInput, BufferedInput, Gen(8)} x {iterator, push}; the delivered events are fed to an independent push-down recogniser of the event grammar with anchor-id discipline. Non-trivial: the parse delivers at least one collection event; distinct: distinct event-kind sentences.".into();
+    rep.rule = "every string of the listed scopes (all strings up to length N over each alphabet, all chunk sequences up to K, the yaml-test-suite inputs and, in the thorough tier, their one-edit neighbourhood) is parsed with {StrInput, BufferedInput, Gen(8)} x {iterator, push}; the delivered events are fed to an independent push-down recogniser of the event grammar with anchor-id discipline. Additionally streams with 1 .. 2*10^5 anchors in four shapes (counts around 2^7, 2^8, 2^15, 2^16, 2^17). Non-trivial: the parse delivers at least one collection event; distinct: distinct event-kind sentences.".into();
     rep.assumptions = vec!["inputs outside the stated alphabets/lengths are not covered".into()];
     let plan = plan(tier, 6, 8, 3, 4);
     rep.mandatory_scopes = plan.spaces.len();
     let budget = Budget::new(wall_cap(tier));
     run_plan(&mut rep, &plan, &budget, |s, acc| c02_eval(s, acc));
+    run_long(&mut rep, tier, &budget, |s, acc| c02_eval(s, acc));
+    // many anchors
+    let extra: &[usize] = if tier == Tier::Quick { &[70_000] } else { &[70_000, 131_071, 131_072, 131_073, 200_000] };
+    let jobs: Vec<(usize, usize)> = (0..ANCHOR_SHAPES.len()).flat_map(|sh| ANCHOR_COUNTS.iter().chain(extra.iter()).map(move |&n| (sh, n))).collect();
+    let (acc, done) = par_blocks(jobs.len() as u64, &budget, |b, acc| {
+        let (sh, n) = jobs[b as usize];
+        let mut a = Acc::default();
+        c02_eval(&anchors_text(sh, n), &mut a);
+        // a violation of a generated stream is recorded by generator, not by its (huge) text
+        for (_, (_, v)) in a.viols.iter_mut() {
+            v.case = json!({"kind": "anchors", "shape": sh, "count": n});
+        }
+        a.samples.clear();
+        a.sample(json!({"anchors": ANCHOR_SHAPES[sh], "count": n}));
+        acc.merge(a);
+    });
+    let n = acc.evals;
+    rep.acc.merge(acc);
+    rep.scope(&format!("streams with 1 .. {} anchors ({} shapes x {} counts)", extra.last().unwrap(), ANCHOR_SHAPES.len(), ANCHOR_COUNTS.len() + extra.len()), n, done == jobs.len() as u64);
     rep.finish()
 }
 pub fn replay(case: &Value) -> Result<Acc, String> {
+    if case["kind"] == "anchors" {
+        let mut acc = Acc::default();
+        c02_eval(&anchors_text(case["shape"].as_u64().unwrap_or(0) as usize, case["count"].as_u64().unwrap_or(1) as usize), &mut acc);
+        return Ok(acc);
+    }
     replay_with(case, |s, acc| c02_eval(s, acc))
 }
